@@ -190,7 +190,8 @@ Proof.
     + intros ea Hea. rewrite forallb_forall in Hats. specialize (Hats ea Hea).
       apply existsb_exists in Hats as [ta [Hta Hm]]. apply andb_true_iff in Hm as [Hn Hm].
       apply qname_eqb_true in Hn. exists (snd ta). split.
-      * apply (atoms_match_plain _ _ _ (proj1 (forallb_forall _ _) Hpa ea Hea) Hm).
+      * apply (RoundtripParse.atoms_plain_read _ _ _ (proj1 (forallb_forall _ _) Hpa ea Hea)).
+        apply (atoms_match_plain _ _ _ (proj1 (forallb_forall _ _) Hpa ea Hea) Hm).
       * apply in_map_iff. exists ta. split; [rewrite Hn; reflexivity|exact Hta].
   - (* content *)
     destruct ekids as [|k1 r].
